@@ -272,7 +272,21 @@ def tlc_generate(module, cfg_path, out_path, wd, workers=8, simulate=None, env=N
     tail = []
     try:
         with open(out_path, "w") as out:
+            pending = None
             for line in p.stdout:
+                # TLC wraps a printed tuple wider than 80 columns: `<< "CASE",` newline `   "..." >>`
+                if pending is not None:
+                    line = pending + line.strip()
+                    if line.endswith(" >>"):
+                        line = line[:-3] + ">>\n"
+                        pending = None
+                    else:
+                        pending = line + " "
+                        continue
+                elif line.startswith('<< "') and not line.rstrip().endswith(">>"):
+                    head = line.strip()
+                    pending = '<<' + head[3:] + " "
+                    continue
                 if line.startswith(prefix):
                     s = line.rstrip("\n")
                     s = s[len(prefix):-2]
@@ -326,7 +340,26 @@ def tlc_generate(module, cfg_path, out_path, wd, workers=8, simulate=None, env=N
     return st
 
 
-MIS_RE = re.compile(r'^<<"MISMATCH", (\d+), (.*)>>$')
+MIS_RE = re.compile(r'^<<\s*"MISMATCH",\s*(\d+),\s*(.*?)\s*>>$')
+
+
+def _unwrap_tuples(lines):
+    """TLC's pretty printer breaks a printed tuple that is wider than its line width into one element per line
+    (`<< "MISMATCH",` / `   17,` / `   "tag" >>`).  Re-join such tuples so that no printed verdict is lost."""
+    buf = None
+    for line in lines:
+        if buf is not None:
+            buf.append(line.strip())
+            if line.rstrip().endswith(">>"):
+                yield " ".join(buf)
+                buf = None
+            continue
+        if line.startswith("<< ") and not line.rstrip().endswith(">>"):
+            buf = [line.strip()]
+            continue
+        yield line
+    if buf:
+        yield " ".join(buf)
 
 
 def tlc_validate_one(module, trace_path, wd, env=None, timeout=3600):
@@ -346,7 +379,7 @@ def tlc_validate_one(module, trace_path, wd, env=None, timeout=3600):
         raise ToolError("TLC validate %s timed out on %s" % (module, trace_path))
     shutil.rmtree(metadir, ignore_errors=True)
     res = {"mismatches": [], "consumed": -1, "lines": -1, "states": 0, "distinct": 0, "notes": [], "wall": time.time() - t0}
-    for line in p.stdout.splitlines():
+    for line in _unwrap_tuples(p.stdout.splitlines()):
         m = MIS_RE.match(line)
         if m:
             res["mismatches"].append((int(m.group(1)), m.group(2)))
